@@ -60,6 +60,8 @@ impl<E: Elem> World<E> {
             OpKind::Flatten => self.op_flatten(cx, a),
             OpKind::Unflatten => self.op_unflatten(cx, a),
             OpKind::NestGen => self.op_nest_gen(cx, a),
+            OpKind::NestClone => self.op_nest_clone(cx, a),
+            OpKind::NestIntoIter => self.op_nest_into_iter(cx, a),
             OpKind::BuilderRun => self.op_builder(cx, a),
             OpKind::ConsumerRun => self.op_consumer(cx, a),
             OpKind::DropObj => self.op_drop(cx, a),
@@ -1179,6 +1181,52 @@ impl<E: Elem> World<E> {
                 self.put_nest(cx, nest)
             }
             Err(p) => on_panic(cx, "nested generate", p),
+        }
+    }
+
+    /// clone of an array whose elements are arrays (Clone seam fires once per innermost element)
+    fn op_nest_clone(&mut self, cx: &mut Cx, a: [u32; N_ARGS]) {
+        let Some(i) = pick_len(self.nests.len(), a[0]) else { return self.noop(cx) };
+        let (n, m) = self.nests[i].dims();
+        let r = with_nest!(&self.nests[i]; x, N, M => { let _ = (N::USIZE, M::USIZE); lib(|| Nest::from(x.clone())) });
+        cx.cov(&[OpKind::NestClone as u64, n as u64, m as u64, r.is_err() as u64]);
+        match r {
+            Ok(c) => {
+                if cx.checks.c08 && ledger::seam_count(Seam::Clone) as usize != n * m {
+                    fail("C08-clone-calls", format!("clone of a {m}-array of {n}-arrays called Clone {} times", ledger::seam_count(Seam::Clone)));
+                }
+                self.put_nest(cx, c)
+            }
+            Err(p) => on_panic(cx, "nested clone", p),
+        }
+    }
+
+    /// by-value iteration over an array of arrays: some inner arrays are handed to the caller,
+    /// the rest are dropped with the iterator
+    fn op_nest_into_iter(&mut self, cx: &mut Cx, a: [u32; N_ARGS]) {
+        let Some(i) = pick_len(self.nests.len(), a[0]) else { return self.noop(cx) };
+        let nest = self.nests.remove(i);
+        let (n, m) = nest.dims();
+        let take = a[1] as usize % (m + 2);
+        let back = a[2] % 2 == 1;
+        let mut got: Vec<Arr<E>> = infra(Vec::new);
+        let r = with_nest!(nest; x, N, M => { let _ = (N::USIZE, M::USIZE); lib(|| {
+            let mut it = x.into_iter();
+            for k in 0..take {
+                let inner = if back && k % 2 == 0 { it.next_back() } else { it.next() };
+                match inner {
+                    Some(arr) => { let v = Arr::from(arr); infra(|| got.push(v)); }
+                    None => break,
+                }
+            }
+            drop(it);
+        }) });
+        cx.cov(&[OpKind::NestIntoIter as u64, n as u64, m as u64, take.min(m + 1) as u64, back as u64, r.is_err() as u64]);
+        if let Err(p) = r {
+            on_panic(cx, "into_iter over an array of arrays", p);
+        }
+        for v in got {
+            self.put_arr(cx, v);
         }
     }
 
